@@ -929,8 +929,168 @@ Proof.
   apply list_eqb_str_eq in He. rewrite <- He. unfold documented.
   change (od_keys (filter (fun kv : str * gparam => has_prose (snd kv)) P)) with (map fst (filter (fun kv : str * gparam => has_prose (snd kv)) P)).
   clear - Hnd. induction P as [|[n g] P IH]; cbn [filter map]; [constructor|].
-  cbn [map fst] in Hnd. inversion Hnd as [|? ? Hn Hr]; subst. destruct (has_prose g); cbn [snd map fst].
+  cbn [map fst] in Hnd. inversion Hnd as [|? ? Hn Hr]; subst. cbn [snd]. destruct (has_prose g); cbn [map fst].
   - constructor; [|apply IH; exact Hr]. intros Hx. apply Hn. apply in_map_iff in Hx. destruct Hx as [kv [Hk Hx]].
     apply filter_In in Hx. apply in_map_iff. exists kv. tauto.
   - apply IH; exact Hr.
+Qed.
+
+(* ------------------------------------------------------------------ *)
+(* names of the domain                                                 *)
+(* ------------------------------------------------------------------ *)
+Lemma id_start_not_star : forall c, is_id_start c = true -> ascii_eqb c (ch 42) = false.
+Proof.
+  intros c H. destruct (ascii_eqb c (ch 42)) eqn:E; [|reflexivity].
+  apply ascii_eqb_eq in E. subst c. vm_compute in H. discriminate.
+Qed.
+
+Lemma name_facts : forall n, name_in_domain n = true ->
+  name_ok n = true /\ not_self_cls n = true /\ startswith (L "**") n = false /\ n <> L "return_type".
+Proof.
+  intros n H. unfold name_in_domain in H. apply andb_true_iff in H. destruct H as [Hi Hr].
+  unfold C06Spec.is_identifier in Hi. destruct n as [|c r]; [discriminate|].
+  repeat (apply andb_true_iff in Hi; destruct Hi as [Hi ?]).
+  pose proof (id_start_not_star c Hi) as Hc.
+  unfold reserved_name in Hr. apply negb_true_iff in Hr. apply orb_false_iff in Hr. destruct Hr as [Hr Hrt].
+  split; [cbn [name_ok]; rewrite Hc; reflexivity|]. split; [unfold not_self_cls; rewrite Hr; reflexivity|].
+  split.
+  - destruct (startswith (L "**") (c :: r)) eqn:E; [|reflexivity]. apply startswith_iff in E. destruct E as [x E].
+    cbn in E. inversion E; subst c. vm_compute in Hc. discriminate.
+  - intros E. rewrite E in Hrt. vm_compute in Hrt. discriminate.
+Qed.
+
+Lemma kwargs_like_name : forall n, name_in_domain n = true -> kwargs_like n = kwargs_name n.
+Proof.
+  intros n H. destruct (name_facts n H) as (_ & _ & Hs & _). unfold kwargs_like, kwargs_name. rewrite Hs. apply orb_false_r.
+Qed.
+
+Lemma reflow_nil : reflow [] = [].
+Proof. vm_compute. reflexivity. Qed.
+
+Lemma pyval_eqb_rfl : forall v, pyval_eqb v v = true.
+Proof. exact C07Facts.pyval_eqb_refl. Qed.
+
+Lemma same_default_back : forall v, C02Spec.same_default (DV v) (back v) = true.
+Proof.
+  intros v. unfold C02Spec.same_default, back. destruct (in_none_types v) eqn:E.
+  - cbn [C02Spec.d_none_like]. rewrite E, in_none_types_NoneStr. reflexivity.
+  - cbn [C02Spec.d_none_like dval_eqb]. rewrite E, pyval_eqb_rfl. reflexivity.
+Qed.
+
+Lemma typ_parses_nq : forall t, typ_parses t = true ->
+  exists nq, needs_quoting (Some t) = Ok nq /\ endswith google_opt t = false.
+Proof.
+  intros t H. unfold typ_parses in H. apply andb_true_iff in H. destruct H as [H1 H2]. apply negb_true_iff in H2.
+  destruct (needs_quoting (Some t)) as [nq|]; [exists nq; split; [reflexivity|exact H2]|discriminate].
+Qed.
+
+(* ------------------------------------------------------------------ *)
+(* one positional / keyword-only parameter, from the IR through the signature and the docstring back to the IR *)
+(* ------------------------------------------------------------------ *)
+Lemma param_entry_codec : forall o n g v dpo,
+  param_facts o g v -> entry_in_domain g = true -> name_in_domain n = true -> kwargs_name n = false ->
+  (if has_prose g then exists dp, dpo = Some dp /\ doc_entry_agrees (negb (fo_inline o)) n g dp = true
+   else dpo = None) ->
+  exists q rp,
+    (match dpo with
+     | Some t => merge_param t (sig_gparam (mkArg n (ann_of o g)) (Some (rdflt g))) = Ok q
+     | None => q = sig_gparam (mkArg n (ann_of o g)) (Some (rdflt g))
+     end)
+    /\ snt_param n q false true = Ok rp /\ same_param_fn g rp = true.
+Proof.
+  intros o n g v dpo F Hdom Hname Hkw Hdoc.
+  destruct F as [Hdef Hval Hstr Hprose Htyped Huntyped].
+  destruct (entry_fields g Hdom) as (Hdocf & Htypf & _).
+  assert (Hkl : kwargs_like n = false) by (rewrite (kwargs_like_name n Hname); exact Hkw).
+  (* the annotation and what it prints as *)
+  assert (Hsig : (fo_inline o = true /\ exists t e, g_typ g = Has t /\ ann_of o g = Some e /\ expr_ok e = true
+                                          /\ rstrip_chars [nl] (show_expr e) = t)
+                 \/ ((fo_inline o = false \/ g_typ g = Missing) /\ ann_of o g = None)).
+  { destruct (fo_inline o) eqn:Ei.
+    - destruct Htypf as [Hm|[c [t Ht]]].
+      + right. split; [right; exact Hm|]. apply ann_of_none. right; exact Hm.
+      + left. split; [reflexivity|]. destruct (Htyped _ Ht) as (_ & Hin & _).
+        destruct (ann_of_typed o g (c :: t) Ei Ht (Hin eq_refl)) as (e & He & _ & Hok & Hshow).
+        exists (c :: t), e. auto.
+    - right. split; [left; reflexivity|]. apply ann_of_none. left; exact Ei. }
+  (* the merged entry: prose of the docstring entry, the declared type, the re-parsed default node *)
+  assert (Hq : exists q, (match dpo with
+                          | Some t => merge_param t (sig_gparam (mkArg n (ann_of o g)) (Some (rdflt g))) = Ok q
+                          | None => q = sig_gparam (mkArg n (ann_of o g)) (Some (rdflt g))
+                          end)
+                         /\ g_default q = Some (DE (rdflt g))
+                         /\ (g_typ q = g_typ g \/ (g_typ q = FNone /\ g_typ g = Missing /\ g_doc q = FNone))
+                         /\ (match prose_of g with
+                             | Some x => exists c r, g_doc q = Has (c :: r) /\ reflow (c :: r) = x
+                             | None => g_doc q = FNone
+                             end)).
+  { unfold has_prose in Hdoc. destruct (prose_of g) as [x|] eqn:Epr.
+    - destruct Hdoc as [dp [-> Hag]]. unfold doc_entry_agrees in Hag. rewrite Epr, Hkw in Hag.
+      apply andb_true_iff in Hag. destruct Hag as [Hy Hrest]. apply andb_true_iff in Hrest. destruct Hrest as [Hty Hdf].
+      destruct (g_doc dp) as [| |y] eqn:Edoc; try discriminate. apply str_eqb_eq in Hy.
+      destruct (g_default dp) eqn:Edd; [discriminate|].
+      eexists. split; [apply merge_doc_sig; exact Edd|]. cbn [g_default g_typ g_doc]. split; [reflexivity|]. split.
+      + left. unfold mtyp, sig_typ. cbn [a_ann].
+        destruct Hsig as [[Hi [t [e [Ht [He [_ Hshow]]]]]]|[Hor Hnone]].
+        * rewrite Hi in Hty. cbn [negb] in Hty. destruct (g_typ dp); try discriminate.
+          rewrite He, Hshow. cbn [fld_is_none andb]. rewrite Ht.
+          destruct Htypf as [Hm|[c [t' Ht']]]; [congruence|]. rewrite Ht in Ht'. inversion Ht'; subst t. reflexivity.
+        * rewrite Hnone. cbn [fld_truthy]. rewrite andb_false_r.
+          destruct Hor as [Hi|Hm].
+          -- rewrite Hi in Hty. cbn [negb] in Hty. destruct (g_typ dp) as [| |a], (g_typ g) as [| |b]; try discriminate; try reflexivity.
+             cbn [fld_eqb] in Hty. apply str_eqb_eq in Hty. subst; reflexivity.
+          -- rewrite Hm in *. destruct (negb (fo_inline o)); destruct (g_typ dp); try discriminate; reflexivity.
+      + destruct y as [|c r]; [rewrite reflow_nil in Hy; unfold prose_of, C02Spec.prose_of in Epr;
+                               destruct (g_doc g) as [| |[|? ?]]; try discriminate; inversion Epr; subst; discriminate|].
+        exists c, r. split; [exact Edoc|symmetry; exact Hy].
+    - subst dpo. eexists. split; [reflexivity|]. unfold sig_gparam, func_arg2param. cbn [snd g_default g_typ g_doc a_ann].
+      split; [reflexivity|]. split; [|reflexivity].
+      destruct Hsig as [[Hi [t [e [Ht [He [_ Hshow]]]]]]|[Hor Hnone]].
+      + left. rewrite He, Hshow, Ht. reflexivity.
+      + rewrite Hnone. destruct Hor as [Hi|Hm]; [|right; split; [reflexivity|split; [exact Hm|reflexivity]]].
+        destruct Htypf as [Hm|[c [t Ht]]]; [right; split; [reflexivity|split; [exact Hm|reflexivity]]|].
+        destruct (Htyped _ Ht) as (_ & _ & Hpr & _). specialize (Hpr Hi). unfold has_prose in Hpr. rewrite Epr in Hpr. discriminate. }
+  destruct Hq as (q & Hmerge & Hqd & Hqt & Hqdoc).
+  (* needs_quoting of the effective type *)
+  assert (Hnq : exists nq, needs_quoting (fget (g_typ q)) = Ok nq).
+  { destruct Hqt as [Hqt|[Hqt [Hm _]]]; rewrite Hqt.
+    - destruct Htypf as [Hm|[c [t Ht]]]; [rewrite Hm; eexists; reflexivity|].
+      rewrite Ht. destruct (Htyped _ Ht) as (Hp & _). destruct (typ_parses_nq _ Hp) as [nq [Hnq _]].
+      exists nq. exact Hnq.
+    - eexists; reflexivity. }
+  destruct Hnq as [nq Hnq].
+  exists q. eexists. split; [exact Hmerge|]. split.
+  - apply (snt_param_codec n q g v nq Hkl Hqd Hdef Hval Hstr Hnq).
+    + intros t Ht Hc. destruct Hqt as [Hqt|[Hqt _]]; [|congruence]. rewrite Hqt in Ht.
+      destruct (Htyped _ Ht) as (_ & _ & _ & Hb). apply Hb; exact Hc.
+    + intros Hn. apply Huntyped. destruct Hqt as [Hqt|[_ [Hm _]]]; [|exact Hm]. rewrite Hqt in Hn.
+      destruct Htypf as [Hm|[c [t Ht]]]; [exact Hm|]. rewrite Ht in Hn. discriminate.
+    + intros t Ht. destruct Hqt as [Hqt|[Hqt _]]; [|congruence]. rewrite Hqt in Ht.
+      destruct (Htyped _ Ht) as (Hp & _). destruct (typ_parses_nq _ Hp) as [nq' [_ Hg]]. exact Hg.
+    + intros c r Hd Hso. destruct (prose_of g) as [x|] eqn:Epr; [|rewrite Hqdoc in Hd; discriminate].
+      destruct Hqdoc as (c' & r' & Hd' & Hrf). rewrite Hd in Hd'. inversion Hd'; subst c' r'. rewrite Hrf in Hso.
+      unfold prose_class in Hprose. rewrite Epr in Hprose.
+      destruct (negb (prose_safe x)); [discriminate|].
+      change (C02Spec.prose_starts_optional x) with (starts_optional x) in Hprose. rewrite Hso in Hprose. cbn [andb] in Hprose.
+      destruct Hqt as [Hqt|[_ [_ Hfn]]]; [|congruence].
+      rewrite Hqt. destruct (g_typ g) as [| |t]; [left; reflexivity|destruct Htypf as [Hm|[? [? Ht]]]; discriminate|].
+      right. exists t. split; [reflexivity|]. destruct (startswith (L "Optional[") t); [reflexivity|discriminate].
+  - unfold same_param_fn. cbn [g_typ g_doc g_default].
+    apply andb_true_iff. split; [apply andb_true_iff; split|].
+    + (* type *)
+      unfold C02Spec.same_typ. cbn [g_typ].
+      destruct Hqt as [Hqt|[Hqt [Hm _]]]; rewrite Hqt.
+      * destruct Htypf as [Hm|[c [t Ht]]].
+        -- rewrite Hm. cbn [rtyp fget]. destruct (in_none_types v); reflexivity.
+        -- rewrite Ht. cbn [rtyp fget C02Spec.opt_str_eqb]. apply str_eqb_refl.
+      * rewrite Hm. cbn [rtyp fget]. destruct (in_none_types v); reflexivity.
+    + (* prose *)
+      unfold C02Spec.same_prose. fold (prose_of g). cbn [g_doc].
+      destruct (prose_of g) as [x|] eqn:Epr.
+      * destruct Hqdoc as (c & r & Hd & Hrf). rewrite Hd. cbn [rdoc]. rewrite Hrf.
+        unfold prose_of, C02Spec.prose_of in Epr. destruct (g_doc g) as [| |[|c0 r0]]; try discriminate. inversion Epr; subst x.
+        cbn [C02Spec.prose_of g_doc C02Spec.opt_str_eqb]. apply str_eqb_refl.
+      * rewrite Hqdoc. reflexivity.
+    + (* default *)
+      unfold C02Spec.default_same. cbn [g_default]. rewrite Hdef. apply same_default_back.
 Qed.
